@@ -933,6 +933,16 @@ impl VmBuilder {
         self.build_inner(spawner).await
     }
 
+    /// Builds a vm which spawns its tasks on `spawner` (verification hook: lets a simulator own
+    /// the executor)
+    #[cfg(gluon_verif)]
+    pub async fn verif_build_with_spawner(
+        self,
+        spawner: Option<Box<dyn futures::task::Spawn + Send + Sync>>,
+    ) -> RootedThread {
+        self.build_inner(spawner).await
+    }
+
     async fn build_inner(
         self,
         spawner: Option<Box<dyn futures::task::Spawn + Send + Sync>>,
